@@ -4,7 +4,9 @@
  *   len' = L - c + n
  *   s'[k] = s[k]            k < i
  *         = ins[k - i]      i <= k < i + n
- *         = s[k - n + c]    i + n <= k < len'
+ *         = s[k - n + c]    i + n <= k < len'   (written s[(i + c) + t], t = k - (i + n): the t-th byte after
+ *                                               the removed range becomes the t-th byte after the inserted block;
+ *                                               same value, but the solvers need not re-associate 64-bit sums)
  *   refused (FALSE) otherwise, and then NOTHING is written (assigns clause is empty).
  * A negative cnt is read as in subbuff (the only place the file defines it): the removed
  * range ends |cnt| bytes before the end, c = L - i + cnt.
@@ -129,7 +131,7 @@ __CPROVER_ensures(!ACCEPTED || (size_t) self->len == (size_t) OLEN(self) - C0 + 
 __CPROVER_ensures(!ACCEPTED || !(vg_k < I0 && vg_k < (size_t) self->len) || self->buff[vg_k] == OLD_BYTE(self, vg_k))
 __CPROVER_ensures(!ACCEPTED || !(vg_k >= I0 && vg_k < I0 + N_INS) || self->buff[vg_k] == INS(vg_k - I0))
 __CPROVER_ensures(!ACCEPTED || !(vg_k >= I0 + N_INS && vg_k < (size_t) self->len) ||
-                  self->buff[vg_k] == OLD_BYTE(self, vg_k - N_INS + C0))
+                  self->buff[vg_k] == OLD_BYTE(self, (I0 + C0) + (vg_k - (I0 + N_INS))))
 /* refused inside this behaviour (negative count reaching before idx): unchanged */
 __CPROVER_ensures(ACCEPTED || (MBUFF_UNCHANGED_FIELDS(self) &&
                   (!(vg_k < (size_t) self->len) || self->buff[vg_k] == OLD_BYTE(self, vg_k))))
